@@ -554,6 +554,10 @@ func (c *HostClient) doNonNilReqResp(req *protocol.Request, resp *protocol.Respo
 	if c.DisablePathNormalizing {
 		req.URI().DisablePathNormalizing = true
 	}
+	// the request line is written from the parsed URI: a target given as a full URL is not
+	// sent as it stands (fragment and all) when the request already has a Host field, e.g.
+	// because the request object has been used before
+	req.ParseURI()
 	reqTimeout := req.Options().RequestTimeout()
 	begin := req.Options().StartTime()
 
